@@ -15,9 +15,10 @@ sed -i "s#path = \"/repo\"#path = \"$SRC\"#" "$W/harness/Cargo.toml"
 export CARGO_TARGET_DIR=/tmp/seedeval/target CARGO_NET_OFFLINE=true SEMVER_MC_OUT="$W/out"
 TIER="${SEED_TIER:-quick}"
 cd "$W/harness" || exit 2
-if ! cargo build --release --offline >"$W/build.log" 2>&1; then echo "BUILD FAILED (see $W/build.log)"; tail -5 "$W/build.log"; exit 2; fi
+# the target dir is shared between invocations: build and take a private copy of the binary under a lock
+if ! flock /tmp/seedeval/build.lock sh -c "cargo build --release --offline >'$W/build.log' 2>&1 && cp /tmp/seedeval/target/release/semver-mc '$W/semver-mc'"; then echo "BUILD FAILED (see $W/build.log)"; tail -5 "$W/build.log"; exit 2; fi
 for p in $PROPS; do
-  timeout 1200 /tmp/seedeval/target/release/semver-mc "$p" --tier "$TIER" >"$W/out/$p.log" 2>&1; rc=$?
+  timeout 1200 "$W/semver-mc" "$p" --tier "$TIER" >"$W/out/$p.log" 2>&1; rc=$?
   case $rc in
     0) echo "$p HELD" ;;
     1) echo "$p VIOLATION  $(grep -m1 'key:' "$W/out/$p.log" | cut -c1-160)" ;;
